@@ -342,6 +342,7 @@ type SolverStats struct {
 }
 
 var gStats SolverStats
+var dumpN int64
 
 func (s *SolverStats) bump(backend string) {
 	v, _ := s.ByBackend.LoadOrStore(backend, new(int64))
@@ -375,7 +376,11 @@ func NewSolver(timeoutMs int) *Solver {
 }
 
 func (s *Solver) start() {
-	s.cmd = exec.Command("z3-new", "-in", fmt.Sprintf("-t:%d", s.timeout))
+	t1 := s.timeout
+	if t1 > 4000 {
+		t1 = 4000
+	}
+	s.cmd = exec.Command("z3-new", "-in", fmt.Sprintf("-t:%d", t1))
 	s.in, _ = s.cmd.StdinPipe()
 	o, _ := s.cmd.StdoutPipe()
 	s.cmd.Stderr = nil
@@ -571,7 +576,29 @@ func (s *Solver) CheckNeg(goal string, onSat func(get func([]string) map[string]
 			}
 		}
 	}
-	if res.Status == "unknown" || res.Raw != "" {
+	if res.Status == "unknown" && res.Raw == "" {
+		// quantifier-free relaxation: dropping assumptions is sound for `unsat`
+		var b strings.Builder
+		for _, f := range s.frames {
+			for _, l := range f.lines {
+				if strings.Contains(l, "(forall ") || strings.Contains(l, "(exists ") {
+					continue
+				}
+				b.WriteString(l)
+				b.WriteByte('\n')
+			}
+		}
+		if !strings.Contains(goal, "(forall ") && !strings.Contains(goal, "(exists ") {
+			st, _ := runSolver("z3-new", []string{"-in", "-T:5"}, smtPrelude+b.String()+"(assert (not "+goal+"))\n(check-sat)\n", 5000)
+			if st == "unsat" {
+				res.Status = "unsat"
+				res.Backend = "z3-new(quantifier-free relaxation)"
+			} else if st == "sat" {
+				res.Raw = "quantifier-free relaxation is sat; "
+			}
+		}
+	}
+	if res.Status == "unknown" || strings.Contains(res.Raw, "(error") {
 		// portfolio fallback, non-incremental
 		atomic.AddInt64(&gStats.Fallbacks, 1)
 		r2 := portfolio(s.script(), goal, wantModel, s.timeout)
@@ -586,9 +613,29 @@ func (s *Solver) CheckNeg(goal string, onSat func(get func([]string) map[string]
 		}
 	}
 	res.Ms = float64(time.Since(t0).Microseconds()) / 1000
+	if d := os.Getenv("TURNVC_DUMP"); d != "" && (res.Ms > 800 || res.Status != "unsat") {
+		n := atomic.AddInt64(&dumpN, 1)
+		os.WriteFile(fmt.Sprintf("%s/q%d_%s.smt2", d, n, res.Status), []byte(smtPrelude+s.script()+"(assert (not "+goal+"))\n(check-sat)\n"), 0o644)
+	}
 	atomic.AddInt64(&gStats.SolverNs, int64(time.Since(t0)))
 	gStats.bump(res.Backend)
 	return res
+}
+
+// Feasible: quick satisfiability probe of the current stack (short timeout; unknown counts as feasible).
+func (s *Solver) Feasible() bool {
+	if s.dead {
+		return true
+	}
+	io.WriteString(s.in, "(set-option :timeout 300)\n(check-sat)\n(set-option :timeout "+fmt.Sprint(min(s.timeout, 4000))+")\n")
+	l, err := s.readLine()
+	if err != nil {
+		s.dead = true
+		s.Close()
+		s.start()
+		return true
+	}
+	return l != "unsat"
 }
 
 // CheckSat checks satisfiability of the current stack plus extra (vacuity / cover checks).
@@ -650,7 +697,7 @@ func runSolver(name string, args []string, script string, timeoutMs int) (string
 
 // portfolio runs the three back ends on a flat script; first decisive answer wins.
 func portfolio(script, goal string, wantModel []string, timeoutMs int) CheckResult {
-	q := script + "(assert (not " + goal + "))\n(check-sat)\n"
+	q := smtPrelude + script + "(assert (not " + goal + "))\n(check-sat)\n"
 	if len(wantModel) > 0 {
 		q += "(get-value (" + strings.Join(wantModel, " ") + "))\n"
 	}
